@@ -3,6 +3,7 @@ import ConfModel.Model.RawBody
 import ConfModel.Spec.RawBody
 import ConfModel.Model.Convert
 import ConfModel.Model.Base64
+import ConfModel.Model.RawMerge
 namespace ConfModel.Driver.C17
 open Lean ConfModel.Driver ConfModel.RawBody ConfModel.RawBodySpec
 
@@ -197,10 +198,14 @@ def handle : Handler := fun op inp impl =>
     let uriQ : List (String × String) := match uri.splitOn "?" with
       | [_, q] => (q.splitOn "&").map (fun kv => match kv.splitOn "=" with | [k, v] => (k, hex v.toUTF8.toList) | _ => (kv, ""))
       | _ => []
-    let rawQ := (parseHdrs (field inp "rawq")).flatMap (fun h => h.values.map (fun v => (h.name, hex v.toUTF8.toList)))
-    let encQ := (arr (field inp "encq")).map fun p =>
+    let listedRaw := parseHdrs (field inp "rawq")
+    let rawQ := listedRaw.flatMap (fun h => h.values.map (fun v => (h.name, hex v.toUTF8.toList)))
+    let encB : List (String × List UInt8) := (arr (field inp "encq")).map fun p =>
       let bytes := (payloadOf compress (parsePayload (field p "value"))).getD []
-      (str (field p "n"), if bool (field p "base64") then hex (ConfModel.Base64.encodeURLPadded bytes) else hex bytes)
+      (str (field p "n"), if bool (field p "base64") then ConfModel.Base64.encodeURLPadded bytes else bytes)
+    let encQ := encB.map fun p => (p.1, hex p.2)
+    -- the code rebuilds the URI iff a parameter is *listed* (even one without values)
+    let noExtra := listedRaw.isEmpty && encB.isEmpty
     let hasQ := !rawQ.isEmpty || !encQ.isEmpty
     let allQ := uriQ ++ rawQ ++ encQ
     let keys := asSet (allQ.map (·.1))
@@ -209,16 +214,78 @@ def handle : Handler := fun op inp impl =>
     let unescapedPath := if path == "/a%20b" then "/a b" else path
     let hdrOk := given.all (fun h => valuesOf hdrs (canonS h.name) == givenFor given (canonS h.name))
     let noStub := (valuesOf hdrs "X-Stub").isEmpty
+    -- the request target: the given URI verbatim when no parameter is listed; else the model's
+    -- rebuilt URI (`url.Parse` on the simple URIs generated for this branch: split at ? & =)
+    let target := str (field impl "target")
+    let simpleParse : String → String × List (String × List UInt8) := fun u =>
+      ((u.splitOn "?").headD "", match u.splitOn "?" with
+        | [_, q] => (q.splitOn "&").map (fun kv => match kv.splitOn "=" with | [k, v] => (k, v.toUTF8.toList) | _ => (kv, []))
+        | _ => [])
+    let mTarget := ConfModel.RawMerge.requestTarget simpleParse uri
+      (listedRaw.map fun h => (h.name, h.values.map (·.toUTF8.toList))) encB
+    let targetOk := !noExtra || target == uri
+    let queryOk := noExtra || implQ == wantQ
     let holds := implErr == "" && str (field impl "method") == str (field inp "verb") && str (field impl "path") == unescapedPath
-      && implQ == wantQ && hdrOk && noStub && body == mBody && bool (field impl "drained")
-    { agree := holds, holds := holds, nontrivial := hasQ || !given.isEmpty, model := Json.mkObj [("body", hex mBody), ("query", toJson wantQ)],
+      && targetOk && queryOk && hdrOk && noStub && body == mBody && bool (field impl "drained")
+    { agree := holds && target == mTarget, holds := holds, nontrivial := hasQ || !given.isEmpty || uri.contains '?',
+      cls := (if noExtra then (if uri.contains '?' then "verbatim-query:" else "verbatim:") else "merged:") ++ str (field inp "proto"),
+      model := Json.mkObj [("body", hex mBody), ("query", toJson wantQ), ("target", mTarget)],
       why := if holds then "" else
         if implErr != "" then "raw request failed: " ++ implErr
-        else if implQ != wantQ then "query parameters differ"
+        else if !targetOk then s!"no extra query parameters are listed, but the request target {target.quote} is not the given URI {uri.quote}"
+        else if !queryOk then "query parameters differ"
         else if !hdrOk then "a listed header does not carry exactly the given values"
         else if body != mBody then "body is not the given body"
         else if !bool (field impl "drained") then "the stub's request was not drained and closed"
         else "method, path or stub header" }
+  | "rawsrv" =>
+    let rows := parseOracle (field impl "oracle")
+    let compress := compressOf rows
+    let implErr := str (field impl "err")
+    let status := nat (field impl "status")
+    let hdrs := parseHdrs (field impl "headers")
+    let trls := parseHdrs (field impl "trailers")
+    let base := parseHdrs (field impl "base")
+    let body := unhex (str (field impl "body"))
+    let given := parseHdrs (field inp "headers")
+    let givenT := parseHdrs (field inp "trailers")
+    let (mBody, mFailed) := bodyModel compress (field inp "body")
+    let wantStatus := if nat (field inp "status") == 0 then 200 else nat (field inp "status")
+    -- headers net/http computes itself (not part of the middleware snapshot)
+    let auto := ["Content-Type", "Content-Length", "Date", "Transfer-Encoding", "Trailer", "Connection"]
+    -- the stack in front of the raw responder: CORS
+    let stack := ["Vary", "Access-Control-Allow-Origin", "Access-Control-Allow-Credentials", "Access-Control-Expose-Headers"]
+    let names := asSet (given.map (fun h => canonS h.name))
+    -- every given header with its values in order; anything else under that name is the stack's
+    let hdrOk := names.all fun k => givenHonoured (valuesOf hdrs k) (givenFor given k) (valuesOf base k)
+    let trlOk := givenT.all (fun h => valuesOf trls (canonS h.name) == givenFor givenT (canonS h.name))
+    -- nothing the handler (connect-go's error response) produced: only given names and stack names
+    let noForeign := hdrs.all fun h => names.contains h.name || auto.contains h.name || stack.contains h.name
+    let bodyOk := match bodySpec compress (field inp "body") with
+      | some b => body == b
+      | none => true
+    let holds := implErr == "" && status == wantStatus && hdrOk && trlOk && noForeign && bodyOk
+    -- the model of `finish`: snapshot (what the middleware had set) then the given values
+    let snap : ConfModel.RawMerge.Values String :=
+      (base.filter (fun h => !auto.contains h.name)).map fun h => (h.name, h.values)
+    let mHdrs := ConfModel.RawMerge.finishHeaders canonS [] snap (given.map fun h => (h.name, h.values))
+      (givenT.map fun h => (h.name, h.values))
+    let modelOk := names.all fun k => k == "Trailer" || k == "Date" || valuesOf hdrs k == ConfModel.RawMerge.get mHdrs k
+    { agree := implErr == "" && status == wantStatus && body == mBody && modelOk, holds := holds,
+      nontrivial := names.any (fun k => !(valuesOf base k).isEmpty),
+      cls := str (field inp "proc") ++ ":" ++ str (field inp "proto") ++ (if str (field inp "origin") == "" then "" else ":origin"),
+      model := Json.mkObj [("status", wantStatus), ("body", hex mBody), ("bodyFailed", mFailed),
+        ("headers", toJson (names.map fun k => (k, ConfModel.RawMerge.get mHdrs k)))],
+      why := if holds then "" else
+        if implErr != "" then "raw response could not be read: " ++ implErr
+        else if status != wantStatus then "status"
+        else if !hdrOk then
+          let bad := names.filter fun k => !givenHonoured (valuesOf hdrs k) (givenFor given k) (valuesOf base k)
+          s!"given header(s) {bad} do not reach the wire with the given values in order: " ++
+            toString (bad.map fun k => s!"{k}: given {givenFor given k}, on the wire {valuesOf hdrs k}, set by the stack {valuesOf base k}")
+        else if !trlOk then "a given trailer does not carry exactly the given values"
+        else if !noForeign then "a header that is neither given nor the stack's reached the wire"
+        else "body is not the given body" }
   | _ => bad ("C17: unknown op " ++ op)
 
 end ConfModel.Driver.C17
